@@ -171,7 +171,7 @@ pub fn batch_process(b: &Batch, run: &dyn Fn(&mut Universe, &Batch, &mut Stats))
                 }
                 Err(e) => st.harness_errors.push(format!("universe boot: {e}")),
             }
-            if warmup_retries < 2 && st.evaluations == 0 && st.violations.is_empty() && !st.harness_errors.is_empty() && st.harness_errors.iter().all(|e| e.starts_with("warm-up:")) {
+            if warmup_retries < 2 && st.evaluations == 0 && st.violations.is_empty() && !st.harness_errors.is_empty() && st.harness_errors.iter().all(|e| e.starts_with("warm-up:") || e.starts_with("universe boot:")) {
                 unsafe { libc::_exit(77) };
             }
             let line = format!("{}\n", st.to_json());
